@@ -71,6 +71,10 @@ pub fn check_source(rep: &Report, prop: &str, b: &Bench, help: &Tree, src: &[u8]
         return;
     }
     allowed.insert(OUT.to_string());
+    if matches!(prop, "C06" | "C08" | "C09") {
+        mini_histories(rep, prop, b, help, src);
+        return;
+    }
     if prop == "C07" {
         // (a) clean without build: nothing was generated, nothing may change, nothing may run
         reset_tree(b, help, src);
@@ -164,8 +168,157 @@ pub fn check_source(rep: &Report, prop: &str, b: &Bench, help: &Tree, src: &[u8]
     }
 }
 
+fn meta_of(s: &Snapshot, p: &str) -> Option<(Vec<u8>, u64, i128)> {
+    match s.get(p) {
+        Some(Meta { node: Node::File(b), ino, mtime_ns }) => Some((b.clone(), *ino, *mtime_ns)),
+        _ => None,
+    }
+}
+
+/// Short histories on one source (the `inputs` dimension of C06, C08, C09)
+fn mini_histories(rep: &Report, prop: &str, b: &Bench, help: &Tree, src: &[u8]) {
+    for tn in [true, false] {
+        // the reference: a build from a tree without generated files
+        reset_tree(b, help, src);
+        let fresh = b.run_no_reset(Mode::Build, true, tn);
+        rep.tv(1);
+        if let V::Panic(p) = &fresh.v {
+            rep.violate("panic", format!("source {:?}: panic {p}", show(src)), rj(prop, src, "build"));
+            return;
+        }
+        let fresh_ok = fresh.v == V::Ok;
+        let fresh_tree = snap_tree(&snapshot(&b.base));
+        let pre = {
+            let mut t = help.clone();
+            tfile(&mut t, SRC, src);
+            t
+        };
+        let generated: Vec<String> = fresh_tree.keys().filter(|k| !pre.contains_key(*k) && fresh_tree[*k] != Node::Dir).cloned().collect();
+        let overwrote = fresh_tree.iter().any(|(k, v)| pre.get(k).map(|o| o != v).unwrap_or(false));
+        if overwrote {
+            return; // ill-formed (D1)
+        }
+        match prop {
+            "C06" => {
+                if !fresh_ok {
+                    return;
+                }
+                rep.add("verify_after_build_sources", 1);
+                set_sentinel(&b.base);
+                let before = snapshot(&b.base);
+                let r = b.run_no_reset(Mode::Verify, true, tn);
+                rep.tv(1);
+                rep.tr(1);
+                let after = snapshot(&b.base);
+                if r.v != V::Ok {
+                    rep.violate("verify-false-fail", format!("source {:?} tn={tn}: verify fails right after a build: {}", show(src), r.v.kind()), rj(prop, src, "build-verify"));
+                }
+                if meta_of(&before, OUT) != meta_of(&after, OUT) {
+                    rep.violate("verify-modified-output", format!("source {:?}: verify touched the output", show(src)), rj(prop, src, "build-verify"));
+                }
+                let good = fresh.out.clone().unwrap_or_default();
+                let mut variants: Vec<(&str, Option<Vec<u8>>)> = vec![("deleted", None)];
+                let mut x = good.clone();
+                x.push(b'Z');
+                variants.push(("one byte appended", Some(x)));
+                let mut x = good.clone();
+                x.push(b'\n');
+                variants.push(("newline appended", Some(x)));
+                if !good.is_empty() {
+                    variants.push(("last byte removed", Some(good[..good.len() - 1].to_vec())));
+                    let mut x = good.clone();
+                    x[0] ^= 1;
+                    variants.push(("first byte flipped", Some(x)));
+                    variants.push(("emptied", Some(vec![])));
+                }
+                for (what, bytes) in variants {
+                    match &bytes {
+                        Some(x) => std::fs::write(b.base.join(OUT), x).unwrap(),
+                        None => {
+                            let _ = std::fs::remove_file(b.base.join(OUT));
+                        }
+                    }
+                    let r = b.run_no_reset(Mode::Verify, true, tn);
+                    rep.tv(1);
+                    rep.tr(1);
+                    let now = std::fs::read(b.base.join(OUT)).ok();
+                    if r.v == V::Ok {
+                        rep.violate("verify-false-pass", format!("source {:?} tn={tn}: verify passes with the output {what} (fresh output {:?})", show(src), show(&good)), rj(prop, src, what));
+                    }
+                    if now != bytes {
+                        rep.violate("verify-modified-output", format!("source {:?}: verify changed the output ({what})", show(src)), rj(prop, src, what));
+                    }
+                }
+            }
+            "C08" => {
+                rep.add("prestate_sources", 1);
+                for (what, bytes) in [("stale text", &b"STALE\n"[..]), ("not UTF-8", &b"\x68\xc3"[..]), ("empty", &b""[..])] {
+                    reset_tree(b, help, src);
+                    for g in &generated {
+                        std::fs::write(b.base.join(g), bytes).unwrap();
+                    }
+                    let r = b.run_no_reset(Mode::Build, true, tn);
+                    rep.tv(1);
+                    rep.tr(1);
+                    let t2 = snap_tree(&snapshot(&b.base));
+                    if (r.v == V::Ok) != fresh_ok {
+                        rep.violate("verdict-depends-on-prestate", format!("source {:?} tn={tn}: generated paths pre-filled with {what}: build {} but {} from a tree without them", show(src), r.v.kind(), if fresh_ok { "succeeds" } else { "fails" }), rj(prop, src, what));
+                    } else if fresh_ok && t2 != fresh_tree {
+                        let diff: Vec<&String> = t2.keys().chain(fresh_tree.keys()).filter(|k| t2.get(*k) != fresh_tree.get(*k)).collect();
+                        rep.violate("build-depends-on-prestate", format!("source {:?} tn={tn}: generated paths pre-filled with {what}: {:?} differ from a build without leftovers", show(src), diff), rj(prop, src, what));
+                    }
+                }
+            }
+            _ => {
+                if !fresh_ok {
+                    return;
+                }
+                rep.add("unchanged_rebuild_sources", 1);
+                for mode in [Mode::InMemoryBuild, Mode::Build, Mode::Verify] {
+                    set_sentinel(&b.base);
+                    let before = snapshot(&b.base);
+                    let r = b.run_no_reset(mode.clone(), true, tn);
+                    rep.tv(1);
+                    rep.tr(1);
+                    let after = snapshot(&b.base);
+                    if r.v != V::Ok {
+                        rep.violate("rerun-failed", format!("source {:?} tn={tn}: {:?} fails on an up-to-date tree", show(src), mode), rj(prop, src, "rerun"));
+                        continue;
+                    }
+                    for g in &generated {
+                        let is_out = g == OUT;
+                        if is_out && mode == Mode::Build {
+                            continue; // a normal build may rewrite outputs
+                        }
+                        if meta_of(&before, g) != meta_of(&after, g) {
+                            rep.violate(
+                                if is_out { "needed-rewrote-unchanged-output" } else { "rewrote-unchanged-temp" },
+                                format!("source {:?} tn={tn}: {:?} rewrote {g} ({} bytes) although its content was already correct", show(src), mode, meta_of(&before, g).map(|m| m.0.len()).unwrap_or(0)),
+                                rj(prop, src, "rerun"),
+                            );
+                        }
+                    }
+                    if snap_tree(&after) != fresh_tree {
+                        rep.violate("rerun-changed-content", format!("source {:?}: {:?} on an up-to-date tree changed file contents", show(src), mode), rj(prop, src, "rerun"));
+                    }
+                }
+                // a stale output / temp target is brought up to date by -N
+                for g in &generated {
+                    std::fs::write(b.base.join(g), b"STALE\n").unwrap();
+                }
+                let r = b.run_no_reset(Mode::InMemoryBuild, true, tn);
+                rep.tv(1);
+                rep.tr(1);
+                if r.v != V::Ok || snap_tree(&snapshot(&b.base)) != fresh_tree {
+                    rep.violate("needed-left-stale", format!("source {:?} tn={tn}: --needed over stale generated files: {} and the tree {} a fresh build", show(src), r.v.kind(), if snap_tree(&snapshot(&b.base)) != fresh_tree { "differs from" } else { "equals" }), rj(prop, src, "stale"));
+                }
+            }
+        }
+    }
+}
+
 pub fn run_into(rep: &Report, prop: &str) {
-    let max_len = if rep.thorough() { 5 } else { 3 };
+    let max_len = if rep.thorough() { if prop == "C07" || prop == "C10" { 5 } else { 4 } } else { 3 };
     let help = helpers_clean();
     rep.set("source_enumeration_alphabet", json!(SIGMA_CLEAN));
     rep.set("source_enumeration_bound", json!(format!("all sources of <= {max_len} lines over the 13-line alphabet above (directive look-alikes as continuation lines of multi-line directives, temp directives naming pre-existing files)")));
